@@ -147,8 +147,11 @@ where
 {
     let n = 1usize << rows_log;
     let polys: Vec<Vec<E>> = (0..cols).map(|c| poly::<E>(n / 2, c)).collect();
-    let rm = RowMatrix::<E>::evaluate_polys::<8>(&ColMatrix::new(polys), 2);
     let key = format!("{name}/cols={cols}/rows={n}/partitions={parts}x{rate}{tag}");
+    let rm = match mck::catch(|| RowMatrix::<E>::evaluate_polys::<8>(&ColMatrix::new(polys), 2)) {
+        Ok(r) => r,
+        Err(p) => return s.fail(&format!("panic:evaluate_polys:{}", p.location), key.clone(), format!("evaluate_polys (input of commit_to_rows) panicked at {} ({}) for {key}", p.location, p.message)),
+    };
     s.evals += 1;
     if parts > 1 {
         s.nontrivial += 1;
@@ -284,7 +287,27 @@ fn run_conc(args: &Args) -> ! {
         });
         (s, st)
     });
+    // short and wide: few LDE rows, many segments, many threads (the matrix is large enough for the
+    // parallel transposition although it has fewer rows than the number of batches the thread count asks for)
+    let wide: Vec<(usize, usize, usize)> = vec![(200, 8, 2), (100, 16, 2), (255, 8, 4)];
+    let wouts = mck::par_map(wide.len(), |j| {
+        let (cols, n, b) = wide[j];
+        let mut s = S { evals: 0, nontrivial: 0, viol: vec![] };
+        let st = rayon::explore(&[1, 2, 4, 8, 16, 32, 64], &[], 0, |tag| {
+            let tag = format!(" [{tag}]");
+            lde_case::<CubeExtension<B64>, 8>("f64^3", cols, n, b, &tag, &mut s);
+            lde_case::<B64, 8>("f64", cols, n, b, &tag, &mut s);
+        });
+        (s, st)
+    });
     let (mut evals, mut sched, mut nontrivial, mut tasks) = (0, 0, 0, 0);
+    for (s, st) in wouts {
+        evals += s.evals;
+        sched += st.schedules;
+        nontrivial += st.nontrivial;
+        tasks += st.task_runs;
+        report.violations(s.viol);
+    }
     let mut regions = vec![];
     for (j, (s, st)) in outs.into_iter().enumerate() {
         evals += s.evals;
@@ -299,7 +322,7 @@ fn run_conc(args: &Args) -> ! {
     report.part("conc build under the controlled scheduler: evaluate_polys[_over], evaluate_columns_over, interpolate_columns, commit_to_rows across the parallel thresholds, T in {1,2,3,4,5,8,16}, every region reversed and rotated", evals, nontrivial,
         json!({"schedules": sched, "task_executions": tasks, "regions": regions}));
     report.exhaustive = true;
-    report.bounds = json!({"cases": cases, "thread_counts": ts_all, "deviation_bound": 1});
+    report.bounds = json!({"cases": cases, "thread_counts": ts_all, "deviation_bound": 1, "short_and_wide_cases_(cols,n,blowup)": wide, "short_and_wide_thread_counts": [1, 2, 4, 8, 16, 32, 64]});
     report.rule = "one case per (function, shape, schedule)".into();
     report.assumptions = vec!["tasks are atomic (no scheduling point inside a task)".into()];
     report.finish(args)
